@@ -248,11 +248,60 @@ def run(ctx):
                     continue
                 judge_consistency(ctx, {"kind": kind, "item_delimiter": ",", "quote_character": '"', "escape_character": '"', "line_delimiter": ld,
                                         "decimal_separator": dec, "thousands_separator": ths})
+    # contradictions between ONE explicit setting and the other property's default
+    for rows, verdict in (
+        ([["D", "Format", "Delimited"], ["D", "Thousands separator", "."]], M.REFUSE),
+        ([["D", "Format", "Fixed"], ["D", "Thousands separator", "."]], M.REFUSE),
+        ([["D", "Format", "Delimited"], ["D", "Decimal separator", ","], ["D", "Thousands separator", "."]], M.ACCEPT),
+        ([["D", "Format", "Delimited"], ["D", "Decimal separator", ","]], M.ACCEPT),
+        ([["D", "Format", "Delimited"], ["D", "Item delimiter", '"\""']], M.REFUSE),
+        ([["D", "Format", "Delimited"], ["D", "Item delimiter", "34"]], M.REFUSE),
+        ([["D", "Format", "Delimited"], ["D", "Item delimiter", "0x22"]], M.REFUSE),
+        ([["D", "Format", "Delimited"], ["D", "Quote character", "'"], ["D", "Item delimiter", "39"]], M.REFUSE),
+        ([["D", "Format", "Delimited"], ["D", "Item delimiter", "39"]], M.ACCEPT),
+        ([["D", "Format", "Delimited"], ["D", "Item delimiter", "lf"], ["D", "Line delimiter", "lf"]], M.REFUSE),
+        ([["D", "Format", "Delimited"], ["D", "Item delimiter", "cr"], ["D", "Line delimiter", "cr"]], M.REFUSE),
+        ([["D", "Format", "Delimited"], ["D", "Quote character", ","]], M.UNJUDGED),
+    ):
+        index += 1
+        if not ctx.mine(index) or verdict == M.UNJUDGED:
+            continue
+        from cutplace import errors, interface
+
+        full = rows + [["F", "a", "", "", "3" if rows[0][2] == "Fixed" else "", "Text", ""]]
+        case = {"cid_rows": full, "expect": verdict, "what": "one explicit setting against the other property's default"}
+        ctx.case(case, True)
+        ctx.count("consistency.judged")
+        ctx.count("consistency.against-defaults")
+        try:
+            interface.Cid().read("<c11>", [list(r) for r in full])
+            observed = M.ACCEPT
+        except errors.InterfaceError as error:
+            observed = M.REFUSE
+        except Exception as error:
+            ctx.violation("C11:internal-error:consistency:%s" % type(error).__name__, case, "completing the CID ended in an internal error", observed=error)
+            continue
+        if observed != verdict:
+            key = "C11:contradiction-with-default-accepted" if verdict == M.REFUSE else "C11:consistent-settings-refused"
+            ctx.violation(key, case, "completion of the CID does not apply the consistency rules to defaults", expected=verdict, observed=observed)
     ctx.exhaustive = True
     ctx.note("the pools of every property are enumerated completely for all four formats in both tiers")
 
 
 def replay(ctx, case):
+    if "cid_rows" in case and "settings" not in case:
+        from cutplace import errors, interface
+
+        ctx.case(case, True)
+        try:
+            interface.Cid().read("<c11>", [list(r) for r in case["cid_rows"]])
+            observed = M.ACCEPT
+        except errors.InterfaceError:
+            observed = M.REFUSE
+        if observed != case["expect"]:
+            ctx.violation("C11:contradiction-with-default-accepted" if case["expect"] == M.REFUSE else "C11:consistent-settings-refused", case,
+                          "completion of the CID does not apply the consistency rules to defaults", expected=case["expect"], observed=observed)
+        return
     if "settings" in case:
         judge_consistency(ctx, case["settings"])
     elif case.get("value") == "(unset)":
